@@ -1329,4 +1329,410 @@ pub fn run_concurrent(cfg: &Cfg, out: &mut Out) {
         }
         out.count(&format!("concurrent.schedules={}", runs));
     }
+    // updates racing the idle deletion (Model/IdleRace)
+    run_idle_race(cfg, out);
+}
+
+// ---------------------------------------------------------------------------------------------
+// idle-race stream: updates racing the idle-DELETION, under the deterministic scheduler.
+//
+// A real `PrometheusRecorder` (mock clock) holds one counter or gauge (`idle_execute` can also drive a histogram, kind 2,
+// but a histogram update passes the yield points of its lock-free bucket, which Model/IdleRace does not have: not generated).
+// Prelude: register, `pre` increments, one
+// render at time 0 (Recency now has an entry), the clock advances by `adv`.  Race, one grant at a time through the
+// yield points `reg.goc.read` / `reg.goc.write` (get_or_create), `gen.applied` (between the value write and the
+// generation bump), `prom.render.gen_read` (between the exporter's generation read and `should_store`) and
+// `reg.delete` (inside `Registry::delete_*`, reached from `should_store` with the Recency mutex held — hence one
+// observer thread): updater threads increment, either through a handle obtained anew before every update (`f:n`, what the
+// macros do) or through one handle obtained before the race (`k:n`); the observer thread renders `renders` times and
+// advances the clock by `tick` after each render (`obs.render` is the harness's own yield point between two renders).
+// Then quiescent post renders after clock advances `post`.  The same grants are replayed on the Lean step machine
+// Model/IdleRace (`idlerace run …`): every shown value, the registered value at the end and the number of lost updates
+// must agree.
+//
+// Implementation-side oracle (independent of the model) — conservation of increments: every increment is either in
+// the value of the series shown at the end, or in the last shown value of a series that was dropped.  The deficit is
+// the number of updates that never reached the output.  Whether an update step lies inside a read→delete window of the
+// observer is read off the grant trace.
+#[derive(Clone, Debug)]
+struct IrCfg {
+    kind: usize,
+    timeout: Option<u64>,
+    covered: bool,
+    tick: u64,
+    adv: u64,
+    pre: usize,
+    upds: Vec<(bool, usize)>,
+    renders: usize,
+}
+
+struct IrRun {
+    run: crate::sched::RunResult,
+    first: Option<u64>,
+    raced: Vec<Option<u64>>,
+    posts: Vec<Option<u64>>,
+}
+
+/// is the finding id listed in known_findings.json? (an oracle failure for a finding that is not listed there would be
+/// reported as a new violation; the reproduction is always counted in the distribution table)
+fn known_has(id: &str) -> bool {
+    let p = concat!(env!("CARGO_MANIFEST_DIR"), "/../known_findings.json");
+    std::fs::read_to_string(p).map(|s| s.contains(&format!("\"{}\"", id))).unwrap_or(false)
+}
+
+fn idle_execute(c: &IrCfg, schedule: &[usize], post: &[u64]) -> IrRun {
+    use std::sync::Mutex;
+    let (clock, mock) = Clock::mock();
+    let bit = match c.kind {
+        0 => 1u8,
+        1 => 2u8,
+        _ => 4u8,
+    };
+    let mask = if c.covered { mask_of(7) } else { mask_of(7 & !bit) };
+    let rec = Arc::new(PrometheusBuilder::new().idle_timeout(mask, c.timeout.map(Duration::from_nanos)).verif_build_with_clock(clock));
+    let handle = rec.handle();
+    let name: &'static str = ir_name(c.kind);
+    let key = Key::from_name(name);
+    let kind = c.kind;
+    // what a render shows: the counter / gauge value; for a histogram the number of samples (`<name>_count`)
+    let shown = move |text: &str| -> Option<u64> {
+        let fams = expo::check_exposition(text).ok()?;
+        let f = fams.iter().find(|f| f.name == name)?;
+        if kind == 2 {
+            let cnt = format!("{}_count", name);
+            f.samples.iter().find(|x| x.0 == cnt).and_then(|x| x.2.parse::<f64>().ok()).map(|v| v as u64)
+        } else {
+            f.samples.first().and_then(|x| x.2.parse::<f64>().ok()).map(|v| v as u64)
+        }
+    };
+    enum H {
+        C(metrics::Counter),
+        G(metrics::Gauge),
+        H(metrics::Histogram),
+    }
+    impl H {
+        fn inc(&self) {
+            match self {
+                H::C(c) => c.increment(1),
+                H::G(g) => g.increment(1.0),
+                H::H(h) => h.record(1.0),
+            }
+        }
+    }
+    let mk = move |rec: &metrics_exporter_prometheus::PrometheusRecorder, key: &Key| match kind {
+        0 => H::C(rec.register_counter(key, &META)),
+        1 => H::G(rec.register_gauge(key, &META)),
+        _ => H::H(rec.register_histogram(key, &META)),
+    };
+    let keep = mk(&rec, &key);
+    for _ in 0..c.pre {
+        keep.inc();
+    }
+    let first = shown(&handle.render());
+    mock.increment(c.adv);
+    let mut bodies: Vec<Box<dyn FnOnce() + Send + 'static>> = vec![];
+    for (fresh, n) in &c.upds {
+        let n = *n;
+        if *fresh {
+            let rec = rec.clone();
+            let key = key.clone();
+            bodies.push(Box::new(move || {
+                for _ in 0..n {
+                    let h = mk(&rec, &key);
+                    h.inc();
+                }
+            }));
+        } else {
+            let h = mk(&rec, &key);
+            bodies.push(Box::new(move || {
+                for _ in 0..n {
+                    h.inc();
+                }
+            }));
+        }
+    }
+    drop(keep);
+    let values: Arc<Mutex<Vec<Option<u64>>>> = Arc::new(Mutex::new(vec![]));
+    {
+        let handle = handle.clone();
+        let values = values.clone();
+        let mock = mock.clone();
+        let renders = c.renders;
+        let tick = c.tick;
+        bodies.push(Box::new(move || {
+            for i in 0..renders {
+                if i > 0 {
+                    metrics::verif::point("obs.render");
+                }
+                let v = shown(&handle.render());
+                values.lock().unwrap().push(v);
+                mock.increment(tick);
+            }
+        }));
+    }
+    let run = crate::sched::run(bodies, schedule);
+    let mut posts = vec![];
+    for a in post {
+        mock.increment(*a);
+        posts.push(shown(&handle.render()));
+    }
+    let raced = values.lock().unwrap().clone();
+    IrRun { run, first, raced, posts }
+}
+
+fn ir_name(kind: usize) -> &'static str {
+    match kind {
+        0 => "ir_c",
+        1 => "ir_g",
+        _ => "ir_h",
+    }
+}
+
+fn ir_kind(kind: usize) -> &'static str {
+    match kind {
+        0 => "counter",
+        1 => "gauge",
+        _ => "histogram",
+    }
+}
+
+fn ir_tok(c: &IrCfg) -> String {
+    format!(
+        "{} {} {} {} {} {} {} {}",
+        if c.kind == 2 { "h" } else { "c" },
+        c.timeout.map(|t| t.to_string()).unwrap_or("~".into()),
+        if c.covered { 1 } else { 0 },
+        c.tick,
+        c.adv,
+        c.pre,
+        list(c.upds.iter().map(|(f, n)| format!("{}:{}", if *f { "f" } else { "k" }, n))),
+        c.renders
+    )
+}
+
+/// (some update step lies inside a read→delete window, a window was opened at all, upper bound on the value writes
+/// exposed to a deletion: writes made inside a window + updates that were between write and bump when one opened)
+fn ir_overlap(trace: &[(usize, &'static str)], nupd: usize, histo: bool) -> (bool, bool, u64) {
+    let obs = nupd;
+    let mut overlap = false;
+    let mut any = false;
+    let mut exposed = 0u64;
+    // a grant wrote the value iff the thread's next grant is at `gen.applied`
+    let wrote = |i: usize| -> bool {
+        let t = trace[i].0;
+        (i + 1..trace.len()).find(|k| trace[*k].0 == t).map(|k| trace[k].1 == "gen.applied").unwrap_or(false)
+    };
+    for (j, (t, id)) in trace.iter().enumerate() {
+        if *t == obs && *id == "reg.delete" {
+            any = true;
+            // the grant that read the generation: the observer's grant before the one granted at `prom.render.gen_read`
+            // (histograms: there is no such yield point, the grant before `reg.delete` read the generation)
+            let at_gen_read = (0..j).rev().find(|i| trace[*i].0 == obs).unwrap_or(j);
+            let i0 = if histo { at_gen_read } else { (0..at_gen_read).rev().find(|i| trace[*i].0 == obs).unwrap_or(0) };
+            if (i0 + 1..j).any(|i| trace[i].0 < nupd) {
+                overlap = true;
+            }
+            exposed += (i0 + 1..j).filter(|i| trace[*i].0 < nupd && wrote(*i)).count() as u64;
+            // an updater that was between its value write and its bump when the window opened: its next grant is at `gen.applied`
+            for u in 0..nupd {
+                if let Some(i) = (i0 + 1..trace.len()).find(|i| trace[*i].0 == u) {
+                    if trace[i].1 == "gen.applied" {
+                        overlap = true;
+                        // (counted here only if its write was made before the window opened)
+                        if i > j || !(i0 + 1..i).any(|k| trace[k].0 == u) {
+                            exposed += 1;
+                        }
+                    }
+                }
+            }
+        }
+    }
+    (overlap, any, exposed)
+}
+
+fn idle_one(out: &mut Out, c: &IrCfg, schedule: &[usize]) -> crate::sched::RunResult {
+    let t = c.timeout.unwrap_or(10);
+    let post: Vec<u64> = vec![0, t + 1, t + 1];
+    let r = idle_execute(c, schedule, &post);
+    let run = r.run.clone();
+    let labels: Vec<&str> = run.trace.iter().map(|(_, id)| *id).collect();
+    let taken: Vec<usize> = run.trace.iter().map(|(t, _)| *t).collect();
+    let fmt_vals = |v: &Vec<Option<u64>>| list(v.iter().map(|x| x.map(|x| x.to_string()).unwrap_or("~".into())));
+    let total: u64 = c.upds.iter().map(|(_, n)| *n as u64).sum();
+    // conservation of increments, from what the real exporter showed
+    let mut seq: Vec<Option<u64>> = vec![r.first];
+    seq.extend(r.raced.iter().cloned());
+    seq.push(r.posts.first().cloned().flatten());
+    let mut accounted: u64 = seq.last().cloned().flatten().unwrap_or(0);
+    for w in seq.windows(2) {
+        if let (Some(x), None) = (w[0], w[1]) {
+            accounted += x;
+        }
+    }
+    let written = c.pre as u64 + total;
+    let deficit = written as i64 - accounted as i64;
+    let (overlap, window, exposed) = ir_overlap(&run.trace, c.upds.len(), c.kind == 2);
+    let all_fresh = c.upds.iter().all(|(f, _)| *f);
+    out.op(
+        &format!("idlerace run {} {} {}", ir_tok(c), crate::sched::sched_tok(&taken), list(post.iter().map(|a| a.to_string()))),
+        &format!(
+            "{} | {} | {} | lost={} wf={}",
+            if labels.is_empty() { "-".to_string() } else { labels.join(".") },
+            fmt_vals(&r.raced),
+            fmt_vals(&r.posts),
+            deficit,
+            if overlap { 0 } else { 1 }
+        ),
+    );
+    out.count(&format!("idlerace.kind={}", ir_kind(c.kind)));
+    out.count(&format!("idlerace.window={}", if overlap { "update inside a read->delete window" } else if window { "deletion, no update inside the window" } else { "no deletion" }));
+    if run.deadlock || run.timed_out || !run.panicked.is_empty() {
+        out.oracle_fail("updates racing the idle deletion: deadlock, timeout or panic", &format!("{:?} {:?}", c, run.trace));
+        return run;
+    }
+    if window && total > 0 {
+        out.nontrivial();
+    }
+    let ctx = || format!(
+        "{} `{}`, idle_timeout {:?} ticks (kind covered by the mask: {}); prelude: register, {} increment(s), render at t=0 -> {:?}, clock +{}; race: updaters {:?} ((true, n) = handle obtained anew before each of n increments, (false, n) = one handle obtained before the race), observer renders {} time(s) with clock +{} after each; grants (thread, yield point granted at) {:?}; renders during the race = {:?}; quiescent renders after clock +{:?} = {:?}; increments written {}, accounted for in the output {} (last value of every dropped series + final value)",
+        ir_kind(c.kind), ir_name(c.kind), c.timeout, c.covered, c.pre, r.first, c.adv, c.upds, c.renders, c.tick, run.trace, r.raced, post, r.posts, written, accounted
+    );
+    if r.first != Some(c.pre as u64) {
+        out.oracle_fail("a registered metric is not shown with its value by the first render", &ctx());
+    }
+    if deficit < 0 {
+        out.oracle_fail("the output accounts for more increments than were made", &ctx());
+    } else if deficit > 0 {
+        if all_fresh && deficit as u64 > exposed {
+            out.oracle_fail("more updates were lost than value writes lie inside read->delete windows of the observer (every handle was fresh)", &format!("{}; value writes exposed to a deletion: {}", ctx(), exposed));
+        } else if overlap {
+            out.count("finding.idle-race: reproduced (an update inside the observer's read->delete window is lost with the deleted storage)");
+            if known_has("K-C12-idle-race") {
+                out.oracle_fail("K-C12-idle-race: an update that lands between the observer's generation read and its unconditional Registry::delete_* is lost with the deleted storage", &ctx());
+            }
+        } else if !all_fresh {
+            out.count("finding.stale-handle: reproduced (updates through a handle kept across an idle drop never reach the output)");
+            if known_has("K-C12-stale-handle") {
+                out.oracle_fail("K-C12-stale-handle: updates through a handle kept across an idle drop go to orphaned storage and never reach the output", &ctx());
+            }
+        } else {
+            out.oracle_fail("an update was lost although no update step lies inside a read->delete window of the observer and every handle was fresh", &ctx());
+        }
+    }
+    // never dropped unless idle for longer than the timeout: no deletion can be due before the post renders
+    let reachable = c.adv + c.tick * (c.renders as u64);
+    let no_drop_possible = c.timeout.is_none() || !c.covered || reachable <= c.timeout.unwrap_or(0);
+    if no_drop_possible {
+        if r.raced.iter().any(|v| v.is_none()) || r.posts.first().cloned().flatten().is_none() {
+            out.oracle_fail("a metric that cannot have been idle for longer than the timeout (or is not covered) is missing from a render", &ctx());
+        }
+        if deficit != 0 {
+            out.oracle_fail("an update was lost although no deletion was due", &ctx());
+        }
+    }
+    if c.timeout.is_some() && c.covered {
+        if r.posts.last().cloned().flatten().is_some() {
+            out.oracle_fail("a metric unchanged since an observation made more than the timeout ago is still shown", &ctx());
+        }
+    } else if r.posts.iter().any(|v| *v != Some(written)) {
+        out.oracle_fail("without a timeout / outside the mask the metric must stay with its full value", &ctx());
+    }
+    run
+}
+
+fn idle_enumerate(out: &mut Out, c: &IrCfg, cap: usize, tag: &str) {
+    let mut prefix: Vec<usize> = vec![];
+    let mut runs = 0usize;
+    loop {
+        out.case(&format!("idle-race {} {:?} run={}", tag, c, runs));
+        let run = idle_one(out, c, &prefix);
+        runs += 1;
+        if runs >= cap {
+            out.count("idlerace.enumeration capped");
+            break;
+        }
+        let taken: Vec<usize> = run.trace.iter().map(|(t, _)| *t).collect();
+        let mut i = taken.len();
+        let mut next = None;
+        while i > 0 {
+            i -= 1;
+            if let Some(alt) = run.choices[i].iter().copied().filter(|c| *c > taken[i]).min() {
+                next = Some((i, alt));
+                break;
+            }
+        }
+        match next {
+            None => {
+                out.count("idlerace.enumeration exhausted");
+                break;
+            }
+            Some((i, alt)) => {
+                prefix = taken[..i].to_vec();
+                prefix.push(alt);
+            }
+        }
+    }
+    out.count_n("idlerace.schedules", runs as u64);
+}
+
+pub fn run_idle_race(cfg: &Cfg, out: &mut Out) {
+    let base = |kind: usize, adv: u64, upds: Vec<(bool, usize)>, renders: usize| IrCfg { kind, timeout: Some(10), covered: true, tick: 0, adv, pre: 1, upds, renders };
+    // corpus: the two witnesses of Props/C12.lean (idle_race_loses_update, stale_handle_loses_update), both kinds
+    for kind in [0usize, 1] {
+        out.case(&format!("idle-race witness W1 kind={}", kind));
+        idle_one(out, &base(kind, 11, vec![(true, 1)], 1), &[1, 0, 0, 0, 1, 1]);
+        out.case(&format!("idle-race witness W2 kind={}", kind));
+        idle_one(out, &base(kind, 11, vec![(false, 1)], 1), &[1, 1, 1, 0, 0]);
+    }
+    // ALL schedules of small configurations
+    let mut configs: Vec<IrCfg> = vec![];
+    for kind in [0usize, 1] {
+        configs.push(base(kind, 11, vec![(true, 1)], 1));
+        configs.push(base(kind, 11, vec![(false, 1)], 1));
+        configs.push(base(kind, 10, vec![(true, 1)], 1)); // exactly the timeout: no deletion is due
+        configs.push(IrCfg { covered: false, ..base(kind, 11, vec![(true, 1)], 1) });
+        configs.push(IrCfg { timeout: None, ..base(kind, 11, vec![(false, 1)], 1) });
+    }
+    configs.push(base(0, 11, vec![(true, 2)], 2));
+    configs.push(base(1, 11, vec![(true, 1), (true, 1)], 1));
+    configs.push(base(0, 11, vec![(true, 1), (true, 1)], 1));
+    configs.push(IrCfg { tick: 11, pre: 0, ..base(0, 0, vec![(true, 2)], 2) });
+    if cfg.thorough {
+        for kind in [0usize, 1] {
+            configs.push(base(kind, 11, vec![(true, 1), (false, 1)], 1));
+            configs.push(base(kind, 11, vec![(true, 2)], 3));
+            configs.push(IrCfg { tick: 11, ..base(kind, 0, vec![(true, 2), (true, 1)], 2) });
+            configs.push(IrCfg { tick: 6, ..base(kind, 0, vec![(false, 2)], 3) });
+            configs.push(IrCfg { timeout: Some(0), tick: 1, ..base(kind, 0, vec![(true, 3)], 3) });
+        }
+    }
+    let cap = if cfg.thorough { 4000 } else { 400 };
+    for c in &configs {
+        idle_enumerate(out, c, cap, "exhaustive");
+    }
+    // seeded random schedules of larger configurations
+    let root = Rng::new(cfg.seed ^ 0x1d1e);
+    let n = if cfg.thorough { 1500 } else { 150 };
+    for i in 0..n {
+        let mut r = root.fork(i as u64);
+        let nupd = r.range(1, 3);
+        let upds: Vec<(bool, usize)> = (0..nupd).map(|_| (r.chance(3, 4), r.range(1, 3))).collect();
+        let timeout = *r.pick(&[Some(10u64), Some(10), Some(0), Some(3), None]);
+        let t = timeout.unwrap_or(10);
+        let c = IrCfg {
+            kind: r.below(2),
+            timeout,
+            covered: r.chance(5, 6),
+            tick: *r.pick(&[0, 0, 1, t, t + 1]),
+            adv: *r.pick(&[0, t, t + 1, t + 1, 2 * t + 1]),
+            pre: r.below(3),
+            upds,
+            renders: r.range(1, 3),
+        };
+        let len = r.range(0, 24);
+        let sched: Vec<usize> = (0..len).map(|_| r.below(nupd + 1)).collect();
+        out.case(&format!("idle-race seed={} i={} {:?}", cfg.seed, i, c));
+        idle_one(out, &c, &sched);
+        out.count("idlerace.random");
+    }
 }
